@@ -80,11 +80,10 @@ def parseNode (j : Json) : Except String (Node Float × Option (Option Bool)) :=
 def specNode (P : Prim Float) (n : Node Float) (condSpec : Option (Option Bool)) : Option Bool :=
   let sureEq (x y : Float) : Bool := fabs (x - y) ≤ 0.9 * (1e-8 + 1e-6 * fabs y)
   let sureNe (x y : Float) : Bool := fabs (x - y) ≥ 1.1 * (1e-8 + 1e-6 * fabs y)
-  if n.declared && n.value.isNone then some false
-  else if !castDims n.dims n.shape then some false
+  if !dimsOK n.dims n.shape then some false
   else
     match n.value with
-    | none => some true
+    | none => some (!n.declared && n.options.isEmpty && condSpec.isNone && n.format.isNone)
     | some v =>
       let optV : Option Bool :=
         if n.options.isEmpty then some true
